@@ -55,6 +55,29 @@ Families
   harness itself from the recorded constraint polynomials (own evaluation, own relation table); no helper of the
   implementation is used to judge the implementation.
 
+  (round 6)
+  closure    ORACLE-FIRST family: the `valid` predicate CLOSES OVER THE ARGUMENT MODEL itself and reads it while the solver
+             runs — `valid = lambda x: pubo_value(x, D) >= k` (the library's value function of the solver's kind on the very
+             object handed to the solver), `D.value(x) <= k` (Matrix and labelled types) or a direct read of the stored
+             offset `ones(x) + D.get((), 0) > k`; plain dicts (raw keys), the four Matrix types and the six labelled types,
+             all four free functions, both modes; four in five models carry a non-zero offset, the threshold k is one of
+             the values the quantity actually takes (so the offset moves assignments across it).  What `valid` MEANS is
+             fixed before the call by the harness' own evaluation of a plain copy of the terms (a table of the accepted
+             assignments); the oracle judges the real result against that table, and the same table goes to the Lean
+             model as a bonus correspondence.  Signature `C09:closure`
+  inf        ORACLE-ONLY family (no model: ℚ has no ∞): float('inf') coefficients / an infinite offset / finite 1e308
+             coefficients whose sum overflows, with a predicate — or, through `PCBO/PCSO.solve_bruteforce()`, recorded
+             constraints — that forces the infinite terms on, so that EVERY valid assignment evaluates to +inf: the
+             objective must be +inf (not None), the assignment valid and over exactly the variables, all_solutions every
+             valid assignment exactly once.  Controls: -inf coefficients (minimum -inf), and `partial` (some valid
+             assignment finite).  Values are computed by the harness' own float evaluation, forwards and backwards (a
+             case whose float sum depends on the order is skipped and counted).  Signature `C09:inf`
+  zerolab    plain dicts in which one or two labels occur ONLY in terms with an explicitly stored zero coefficient (0, 0.0,
+             Fraction(0); singletons and products with ordinary labels) and the predicate depends on exactly those labels
+             (forces them to 1 / -1, parity over a subset containing them, equal / unequal to an ordinary label, threshold
+             on the number of ones, a single accepted assignment): they are variables of the model like any other
+             (correspondence + oracle).  Signature `C09:zerolab`
+
 The corner (constant model, `valid({})` false): the property's clause 3 ("no assignment valid => objective None")
 and clause 4 ("constant model => the constant with an empty assignment") contradict each other there.  The code
 follows clause 4 (it returns before the loop and never calls `valid`; Lean: `constant_model_ignores_valid`,
@@ -75,7 +98,7 @@ result of `Qv.Brute.solve` in the requested and in the other mode.  Compared: ob
 solution ∈ the model's argmin list; `all_solutions` as a sorted list (set equality + duplicate-freeness);
 terms afterwards as a dict.
 """
-import copy, itertools, json
+import copy, itertools, json, math, operator
 from fractions import Fraction
 from . import common
 from .common import Labels, fs, exc_name, canon_terms, ANC
@@ -85,7 +108,11 @@ RULE = ("models with 1..8 variables and 1..8 terms, small integer / Fraction / d
         "offsets, all ten model types + plain dicts with raw keys, labels int/str/tuple/mixed, predicate menu always/"
         "never/parity/threshold/excluded assignment/exactly one/exactly the non-minimisers/parity of a variable subset/"
         "pair relation/table of is_solution_valid, raising predicates, both modes, four free functions and the methods, "
-        "n up to 9, plateaus, multi-call histories with edits between the calls; a case is non-trivial when the "
+        "n up to 9, plateaus, multi-call histories with edits between the calls; predicates that close over the argument "
+        "model (value function / .value / stored offset against a threshold taken from the model's own values; dict, Matrix, "
+        "labelled types; 4 functions; offsets), inf / overflowing coefficients forced on by the predicate or by PCBO/PCSO "
+        "constraints (oracle only), plain dicts with labels that occur only with stored zero coefficients and predicates "
+        "depending on them; a case is non-trivial when the "
         "model has >= 2 variables and >= 2 terms and at least one assignment is valid; distinct = distinct case JSON")
 ASSUMPTIONS = ["for the labelled BO types the model's variables are those the object reports (`variables` = the labels of "
                "`mapping`); cancelled variables stay until refresh() (C14's subject). Plain dicts and Matrix types: the labels "
@@ -387,6 +414,29 @@ def fill_pred(case, obj, L):
         m = min(v for v, _ in tabv)
         pred = {"t": "table", "src": "nonmin",
                 "xs": [sorted([L.ident(l), str(v)] for l, v in zip(labs, vals)) for val, vals in tabv if val != m]}
+    if pred["t"] == "closure":
+        # the meaning of the predicate, fixed now: the accepted assignments by the harness' own evaluation of a plain copy
+        # of the stored terms; the threshold is one of the values the quantity takes
+        orig = dict(pred)
+        terms0 = copy.deepcopy(dict(obj))
+        tabv = []
+        for vals in itertools.product(dom, repeat=len(labs)):
+            x = dict(zip(labs, vals))
+            tabv.append((clo_quantity(pred["how"], terms0, x), x))
+        distinct = sorted({v for v, _ in tabv})
+        k = distinct[pred["q"] % len(distinct)]
+        ok = CLO_CMP[pred["cmp"]]
+        pred = {"t": "table", "src": "closure", "orig": orig, "clo": dict(orig, k=fs(k)),
+                "xs": [sorted([L.ident(l), str(v)] for l, v in x.items()) for val, x in tabv if ok(val, k)]}
+    if pred["t"] == "force":
+        orig = dict(pred)
+        want = {i: int(v) for i, v in pred["x"]}
+        xs = []
+        for vals in itertools.product(dom, repeat=len(labs)):
+            e = {L.ident(l): v for l, v in zip(labs, vals)}
+            if all(e.get(i) == v for i, v in want.items()):
+                xs.append(sorted([i, str(v)] for i, v in e.items()))
+        pred = {"t": "table", "src": "force", "orig": orig, "xs": xs}
     if case["via"] == "method" and hasattr(obj, "constraints") and obj.constraints:
         # the predicate of the method is the object's own is_solution_valid, passed to the model as a table
         # (computed here from the recorded constraint polynomials — data of the object — with the harness' own
@@ -433,7 +483,31 @@ def make_valid(pred, L):
     if t == "table":
         tab = [{lab_of(L, i): int(v) for i, v in e} for e in pred["xs"]]
         return lambda x: any(x == e for e in tab)
+    if t == "force":
+        want = {lab_of(L, i): int(v) for i, v in pred["x"]}
+        return lambda x: all(x.get(l) == v for l, v in want.items())
     raise ValueError(t)
+
+# --- predicates that close over the argument model (family `closure`)
+
+CLO_CMP = {"ge": operator.ge, "le": operator.le, "gt": operator.gt, "lt": operator.lt}
+
+def clo_quantity(how, terms, x):
+    """what the closure computes, on a plain copy of the terms, by the harness' own evaluation"""
+    if how == "offset":
+        return sum(1 for v in x.values() if v == 1) + Fraction(terms.get((), 0))
+    return poly_value(terms, x)
+
+def make_closure(clo, obj, fn):
+    """the real callback: it holds a reference to the very object handed to the solver and reads it on every call"""
+    from qubovert import utils
+    k, ok = Fraction(clo["k"]), CLO_CMP[clo["cmp"]]
+    if clo["how"] == "fn":
+        vf = getattr(utils, fn + "_value")
+        return lambda x: ok(vf(x, obj), k)
+    if clo["how"] == "method":
+        return lambda x: ok(obj.value(x), k)
+    return lambda x: ok(sum(1 for v in x.values() if v == 1) + obj.get((), 0), k)
 
 # ------------------------------------------------------------------ snapshots (order-insensitive on the terms)
 
@@ -458,7 +532,7 @@ def canon_assign(x, L):
 def run_impl(case, obj, pred, L):
     """returns (canonical result, raw result, log)"""
     log = []
-    valid = make_valid(pred, L)
+    valid = make_closure(pred["clo"], obj, case["fn"]) if pred.get("clo") else make_valid(pred, L)
     vret = case.get("vret")
     def wrapped(x):
         if not isinstance(x, dict):
@@ -576,9 +650,18 @@ def poly_value(d, x):
         tot += m
     return tot
 
-def oracle(case, d0, pred, L, res, log, V):
+def num_eq(a, b):
+    """equality of two numbers: exact rationals, or floats when one of them is infinite"""
+    try:
+        return Fraction(a) == Fraction(b)
+    except (OverflowError, ValueError):
+        return a == b
+
+def oracle(case, d0, pred, L, res, log, V, valid=None, pv=None):
     """the property statement evaluated on the real result.  d0: copy of the terms taken before the call;
-    V: the model's variables (`model_vars` of the object before the call)."""
+    V: the model's variables (`model_vars` of the object before the call).  valid / pv: the predicate and the
+    evaluation when they are not the defaults (`make_valid(pred)`, exact rational `poly_value`) — family `inf`."""
+    poly_value = pv or globals()["poly_value"]
     if log:
         return "; ".join(log)
     if res is None:
@@ -589,14 +672,14 @@ def oracle(case, d0, pred, L, res, log, V):
     free = case["via"] != "method"
     spin = case["fn"] in SPIN_FN
     dom = (1, -1) if spin else (0, 1)
-    valid = make_valid(pred, L)
+    valid = valid or make_valid(pred, L)
     labs = list(V)
     if not key_labels(d0):
         # constant model (clause 4 of the property; `valid` is not consulted by that clause)
-        const = Fraction(d0.get((), 0))
+        const = d0.get((), 0)
         if free and obj_v is None and not labs and not valid({}):
             pass        # the overlap of clauses 3 and 4: `None` is what clause 3 demands (the code follows clause 4)
-        elif free and (obj_v is None or Fraction(obj_v) != const):
+        elif free and (obj_v is None or not num_eq(obj_v, const)):
             return "constant model: objective %r, constant %s" % (obj_v, const)
         if sol != ([{}] if case["all"] else {}):
             return "constant model: solution %r is not the empty assignment" % (sol,)
@@ -611,8 +694,8 @@ def oracle(case, d0, pred, L, res, log, V):
             return "no assignment is valid but the objective is %r" % (obj_v,)
         return None
     m = min(v for v, _ in table)
-    if free and (obj_v is None or Fraction(obj_v) != m):
-        return "objective %r, true constrained minimum %s" % (obj_v, m)
+    if free and (obj_v is None or not num_eq(obj_v, m)):
+        return "objective %r, true constrained minimum %s (over the %d assignment(s) accepted by valid)" % (obj_v, m, len(table))
     minimisers = [x for v, x in table if v == m]
     if case["all"]:
         for i, s in enumerate(sol):
@@ -1014,6 +1097,185 @@ def run_raise(ctx, c):
     if why:
         ctx.violation("C09:raise", rec, why)
 
+
+# --- round 6: closures over the argument model, zero-coefficient-only labels, infinite values
+
+def closure_case(rng):
+    """a free-function call whose `valid` reads the model being solved (see the module docstring)"""
+    c = gen_case(rng, "free")
+    terms = [t for t in c["terms"] if t[0]] or [[[0], "1"]]
+    if rng.random() < 0.85:
+        terms.insert(rng.randrange(len(terms) + 1), [[], rng.choice(["-3", "-2", "-1", "1", "2", "3", "5", "1/2", "-3/2", "-1/4"])])
+    c["terms"] = terms
+    if c["num"] == "float" and not all(dyadic(v) for _, v in terms):
+        c["num"] = "frac"
+    how = rng.choice(["fn", "fn", "fn", "method", "offset"])
+    if how == "method" and c["kind"] == "dict":
+        how = "fn"
+    c["valid"] = {"t": "closure", "how": how, "cmp": rng.choice(["ge", "le", "gt", "lt"]), "q": rng.randrange(1 << 16)}
+    c["family"] = "closure"
+    return c
+
+def zerolab_case(rng):
+    """plain dict; labels n .. n+k-1 occur only in terms whose stored coefficient is zero; the predicate depends on them"""
+    fn = rng.choice(["pubo", "qubo", "puso", "quso"])
+    spin = fn in SPIN_FN
+    n, k = rng.randint(1, 4), rng.choice([1, 1, 2])
+    terms = gen_terms(rng, n, fn, "dict", nterms=rng.randint(1, 5))
+    zl = list(range(n, n + k))
+    for z in zl:
+        r = rng.random()
+        extra = [[[z], "0"]] if r < 0.55 else [[rng.sample([rng.randrange(n), z], 2), "0"]] if r < 0.8 else \
+            [[[z], "0"], [[rng.randrange(n), z], "0"]]
+        for t in extra:
+            terms.insert(rng.randrange(len(terms) + 1), t)
+    num = rng.choice(["int", "frac", "float"])
+    if num == "float" and not all(dyadic(v) for _, v in terms):
+        num = "frac"
+    on = -1 if spin else 1                       # the value a pruned label would NOT get
+    t = rng.choice(["force", "force", "force", "subpar", "pair", "thr", "only", "parity"])
+    if t == "force":
+        pred = {"t": "force", "x": [[z, str(on)] for z in zl if rng.random() < 0.7] or [[zl[0], str(on)]]}
+    elif t == "subpar":
+        pred = {"t": "subpar", "ids": sorted(set(zl[:rng.randint(1, k)] + [i for i in range(n) if rng.random() < 0.3])),
+                "r": 0 if spin else 1}
+    elif t == "pair":
+        pred = {"t": "pair", "a": rng.choice(zl), "b": rng.randrange(n), "eq": rng.random() < 0.5}
+    elif t == "thr":
+        pred = {"t": "thr", "cmp": "le", "k": rng.randint(0, n)} if spin else {"t": "thr", "cmp": "ge", "k": rng.randint(n, n + k)}
+    elif t == "only":
+        pred = {"t": "only", "x": None}
+    else:
+        pred = {"t": "parity", "r": rng.randrange(2)}
+    return {"family": "zerolab", "fn": fn, "kind": "dict", "n": n + k, "terms": terms, "labels": rng.choice(Labels.STYLES_X),
+            "num": num, "all": rng.random() < 0.6, "via": "free", "valid": pred, "seed": rng.randrange(1 << 30)}
+
+INF_MODES = ["inf", "inf", "inf", "overflow", "overflow", "overflow", "infoffset", "neginf", "partial"]
+
+def inf_case(rng):
+    """float('inf') / overflowing coefficients; `forced` labels are held at 1 by the predicate (free functions) or by
+    recorded constraints (PCBO / PCSO methods), so every valid assignment has the value +inf"""
+    via = rng.choice(["free", "free", "free", "method"])
+    if via == "method":
+        kind = rng.choice(["PCBO", "PCSO"]); fn = FN_OF_KIND[kind]
+    else:
+        fn = rng.choice(["pubo", "qubo", "puso", "quso"]); kind = rng.choice(KINDS_OF_FN[fn])
+    n = rng.randint(2, 4)
+    terms = [[k, rng.choice(["-2", "-1", "1", "1", "2", "1/2", "-3/2", "3"])]
+             for k, _ in gen_terms(rng, n, fn, kind, nterms=rng.randint(1, 4)) if k]
+    if rng.random() < 0.3:
+        terms.append([[], rng.choice(["-2", "1", "5/2"])])
+    mode = rng.choice(INF_MODES)
+    if via == "method" and mode in ("infoffset", "neginf"):
+        mode = "inf"
+    forced = []
+    if mode in ("inf", "partial"):
+        a = rng.randrange(n)
+        terms.insert(rng.randrange(len(terms) + 1), [[a], "inf"]); forced = [a]
+        if mode == "partial":
+            forced = []
+    elif mode == "overflow":
+        a, b = rng.sample(range(n), 2)
+        terms += [[[a], "1e308"], [[b], "1e308"]]
+        if rng.random() < 0.3:
+            terms.append([[a, b], "1e308"])
+        forced = [a, b]
+    elif mode == "infoffset":
+        terms = [t for t in terms if t[0]] + [[[], "inf"]]
+        forced = [i for i in range(n) if rng.random() < 0.3]
+    else:
+        terms.insert(rng.randrange(len(terms) + 1), [[rng.randrange(n)], "-inf"])
+    if not any(k for k, _ in terms):
+        terms.append([[0], "1"])
+    return {"family": "inf", "mode": mode, "fn": fn, "kind": kind, "n": n, "terms": terms, "forced": forced,
+            "labels": "int" if kind in MATRIX else rng.choice(Labels.STYLES_X), "all": rng.random() < 0.5, "via": via,
+            "extra": rng.choice([None, None, "parity0", "parity1"]) if via == "free" else None,
+            "seed": rng.randrange(1 << 30)}
+
+def fvalue(items, x, spin, rev=False):
+    """the value of the stored terms at x in float arithmetic (boolean: a term counts iff all its variables are 1 — no
+    0 * inf; spin: coefficient times the product of the spins), summed in the stored order or backwards"""
+    tot = 0
+    for k, v in (reversed(list(items)) if rev else items):
+        if spin:
+            sgn = 1
+            for l in k:
+                sgn *= x[l]
+            tot = tot + v * sgn
+        elif all(x[l] == 1 for l in k):
+            tot = tot + v
+    return tot
+
+def run_inf(ctx, c):
+    L = Labels(c["labels"])
+    spin = c["fn"] in SPIN_FN
+    dom = (1, -1) if spin else (0, 1)
+    fl_of = lambda v: float(v) if v.lstrip("-") in ("inf", "1e308") else float(Fraction(v))
+    items = [(tuple(lab_of(L, i) for i in key), fl_of(v)) for key, v in c["terms"]]
+    method = c["via"] == "method"
+    try:
+        if c["kind"] == "dict":
+            obj = dict(items)
+        else:
+            obj = cls_of(c["kind"])(items)
+        if method:
+            fl = [(lab_of(L, i),) for i in c["forced"]]
+            if len(fl) == 2 and c["seed"] % 2:
+                obj.add_constraint_eq_zero({fl[0]: 1, fl[1]: 1, (): -2})
+            else:
+                for k in fl:
+                    obj.add_constraint_eq_zero({k: 1, (): -1})
+    except Exception as e:
+        ctx.count("inf:unbuildable:" + exc_name(e)); return
+    V = model_vars(obj)
+    d0 = copy.deepcopy(dict(obj))
+    forced = [lab_of(L, i) for i in c["forced"]]
+    extra = c.get("extra")
+    def valid0(x):
+        if any(x.get(l) != 1 for l in forced):
+            return False
+        if extra:
+            return sum(1 for v in x.values() if v == 1) % 2 == int(extra[-1])
+        return True
+    # the values, forwards and backwards: a case whose float sum depends on the order (or is nan) decides nothing
+    asg = [dict(zip(V, vals)) for vals in itertools.product(dom, repeat=len(V))]
+    vals = [(fvalue(d0.items(), x, spin), fvalue(d0.items(), x, spin, rev=True)) for x in asg if valid0(x)]
+    if any(a != b or a != a for a, b in vals):
+        ctx.count("inf:skipped:order-dependent-or-nan"); return
+    log = []
+    def wrapped(x):
+        if not isinstance(x, dict):
+            log.append("valid was called with a %s" % type(x).__name__)
+        return valid0(x)
+    before = snap(obj)
+    try:
+        if method:
+            res = (None, obj.solve_bruteforce(c["all"]))
+        else:
+            res = free_fn(c["fn"])(obj, c["all"], wrapped)
+            if not (isinstance(res, tuple) and len(res) == 2):
+                log.append("result is not a pair"); res = None
+    except Exception as e:
+        res = ("raised", repr(e))
+    if snap(obj) != before:
+        log.append("model changed by the call")
+    if res is not None and res[0] != "raised":
+        sol = res[1]
+        if c["all"] and not (isinstance(sol, list) and all(isinstance(s_, dict) for s_ in sol)):
+            log.append("all_solutions result is not a list of dicts: %r" % (sol,))
+        if not c["all"] and not isinstance(sol, dict):
+            log.append("solution is not a dict: %r" % (sol,))
+    allinf = bool(vals) and all(a == math.inf for a, _ in vals)
+    ctx.traces += 1
+    ctx.case(c, len(V) >= 2 and bool(vals))
+    ctx.count("inf:%s:%s:%s" % (c["mode"], "method" if method else c["fn"], "all" if c["all"] else "one"))
+    ctx.count("inf:min:" + ("no-valid" if not vals else "+inf" if allinf else "-inf" if min(a for a, _ in vals) == -math.inf
+                            else "finite"))
+    bad = oracle(c, d0, {"t": "always"}, L, res, log, V, valid=valid0, pv=lambda d, x: fvalue(d.items(), x, spin))
+    if bad:
+        ctx.violation("C09:inf", c, "%s [model %r, valid = the labels %r are 1%s]" % (
+            bad, d0, forced, " and the number of ones is %s" % ("odd" if extra == "parity1" else "even") if extra else ""))
+
 # --- several calls on the same object, with edits in between (solve, mutate, solve, ...)
 
 MUT_OPS = ["set", "add", "cancel", "offset", "newvar", "refresh", "cons", "popoffset",
@@ -1276,6 +1538,9 @@ def process(ctx, cases):
         if c["family"] == "multi":
             prepared += run_multi(ctx, c)
             continue
+        if c["family"] == "inf":
+            run_inf(ctx, c)
+            continue
         L = Labels(c["labels"])
         obj, tag = build(c)
         if tag is None:
@@ -1298,6 +1563,8 @@ def process(ctx, cases):
         fam = c["family"]
         if pred["t"] != "table":
             rec = dict(c, valid=pred)
+        elif pred.get("orig"):
+            rec = dict(c, valid=pred["orig"])       # closure / force: the description the table was computed from
         elif pred.get("src") == "nonmin":
             rec = dict(c, valid={"t": "nonmin"})
         else:
@@ -1335,7 +1602,12 @@ def process(ctx, cases):
             continue
         bad = oracle(c, d0, pred, L, res, log, V)
         if bad:
-            ctx.violation("C09:multi" if fam == "multi" else D1_SIG if d1_input(c, tag) else "C09:" + fam, rec, bad)
+            if pred.get("clo"):
+                bad += " [valid = %s %s %s, reading the argument model itself]" % (
+                    {"fn": "solve's own value function(x, D)", "method": "D.value(x)", "offset": "ones(x) + D.get((), 0)"}[pred["clo"]["how"]],
+                    pred["clo"]["cmp"], pred["clo"]["k"])
+            ctx.violation("C09:multi" if fam == "multi" else "C09:" + fam if fam in ("closure", "zerolab") else
+                          D1_SIG if d1_input(c, tag) else "C09:" + fam, rec, bad)
 
 def absent_variable(ctx, c, obj):
     """a recorded constraint mentions a label that is not a variable of the model (see ABSENT_AS_FINDING)"""
@@ -1378,6 +1650,10 @@ def gen_all(ctx):
     cases += [multi_case(rng) for _ in range(ctx.scale(600, 7000))]
     # round 4
     cases += [vtype_case(rng) for _ in range(ctx.scale(600, 7000))]
+    # round 6
+    cases += [closure_case(rng) for _ in range(ctx.scale(700, 8000))]
+    cases += [zerolab_case(rng) for _ in range(ctx.scale(400, 5000))]
+    cases += [inf_case(rng) for _ in range(ctx.scale(400, 5000))]
     return cases
 
 def check(ctx):
@@ -1405,6 +1681,9 @@ def search(ctx):
     extra += [gen_case(ctx.rng, ctx.rng.choice(["free", "method"])) for _ in range(3000)]
     extra += [gen_hist_case(ctx.rng, ctx.rng.choice(["free", "method"])) for _ in range(1000)]
     extra += [bhist_case(ctx.rng, ctx.rng.choice(["free", "method"])) for _ in range(1000)]
+    extra += [closure_case(ctx.rng) for _ in range(1000)] + [zerolab_case(ctx.rng) for _ in range(600)]
+    for c in [inf_case(ctx.rng) for _ in range(600)]:
+        run_inf(ctx, c)
     for c in extra:
         L = Labels(c["labels"])
         obj, tag = build(c)
@@ -1418,8 +1697,9 @@ def search(ctx):
         impl, res, log = run_impl(c, obj, pred, L)
         bad = oracle(c, d0, pred, L, res, log, V)
         if bad:
-            ctx.violation(D1_SIG if d1_input(c, tag) else "C09:" + c["family"],
-                          dict(c, valid=pred if pred["t"] != "table" else {"t": "always"}), bad)
+            ctx.violation("C09:" + c["family"] if c["family"] in ("closure", "zerolab") else
+                          D1_SIG if d1_input(c, tag) else "C09:" + c["family"],
+                          dict(c, valid=pred.get("orig") or (pred if pred["t"] != "table" else {"t": "always"})), bad)
 
 def replay(ctx, payload):
     c = payload.get("case") or (payload.get("first_difference") or {}).get("case")
